@@ -323,3 +323,57 @@ def rebinds_of_params(func: ast.FunctionDef, params: List[str]) -> List[Tuple[st
                     verdict = "default-if-none"
             out.append((t.id, " ".join(ast.unparse(n).split())[:100], verdict))
     return out
+
+
+_MUT_METHODS = {"append", "extend", "insert", "pop", "remove", "clear", "sort", "reverse", "update", "setdefault", "popitem", "add", "discard"}
+
+
+def shared_state_mutations(mod: Module, func: ast.AST) -> List[Tuple[str, str]]:
+    """mutations, inside `func`, of containers that outlive the call: module-level names, class-level constants reached through cls./self./ClassName.
+    (directly or through a local alias).  Returns (what, statement text)."""
+    module_level = {n for n, v in mod.constants.items() if isinstance(v, (ast.List, ast.Dict, ast.Set, ast.Call, ast.ListComp, ast.DictComp))}
+    class_consts = set()
+    for c in mod.classes.values():
+        for st in c.body:
+            if isinstance(st, (ast.Assign, ast.AnnAssign)):
+                tg = st.targets[0] if isinstance(st, ast.Assign) else st.target
+                val = st.value
+                if isinstance(tg, ast.Name) and isinstance(val, (ast.List, ast.Dict, ast.Set)):
+                    class_consts.add(tg.id)
+    params = set(param_names(func)) if isinstance(func, ast.FunctionDef) else set()
+
+    def shared(e) -> Optional[str]:
+        if isinstance(e, ast.Name) and e.id in module_level and e.id not in params:
+            return f"module-level {e.id}"
+        if isinstance(e, ast.Attribute) and e.attr in class_consts and isinstance(e.value, ast.Name) and (e.value.id in ("cls", "self") or e.value.id in mod.classes):
+            return f"class-level {e.attr}"
+        return None
+    alias = {}
+    for t, v, st in assignments(func):
+        if isinstance(t, ast.Name):
+            sh = shared(v)
+            if sh:
+                alias[t.id] = sh
+    local_defs = {t.id for t, v, st in assignments(func) if isinstance(t, ast.Name)}
+
+    def denotes(e):
+        sh = shared(e)
+        if sh and not (isinstance(e, ast.Name) and e.id in local_defs and e.id not in alias):
+            return sh
+        if isinstance(e, ast.Name) and e.id in alias:
+            return alias[e.id] + f" (through alias {e.id})"
+        return None
+    out = []
+    for n in ast.walk(func):
+        if isinstance(n, ast.Call) and isinstance(n.func, ast.Attribute) and n.func.attr in _MUT_METHODS:
+            d = denotes(n.func.value)
+            if d:
+                out.append((f"{n.func.attr}() on {d}", " ".join(ast.unparse(n).split())[:100]))
+        if isinstance(n, (ast.Assign, ast.AugAssign, ast.Delete)):
+            tgts = n.targets if isinstance(n, (ast.Assign, ast.Delete)) else [n.target]
+            for t in tgts:
+                if isinstance(t, ast.Subscript):
+                    d = denotes(t.value)
+                    if d:
+                        out.append((f"item store into {d}", " ".join(ast.unparse(n).split())[:100]))
+    return out
